@@ -200,9 +200,11 @@ def ext_hdr(t, data, level):
 
 
 def build_header(level, method=b"-lh0-", packed=0, size=0, time=0, attr=0x20, crc=0, os=ord("U"),
-                 name=b"", area=b"", exts=(), common_crc=False, fix=True, pad=False):
+                 name=b"", area=b"", exts=(), common_crc=False, fix=True, pad=False, fake_packed=None):
     """Build header bytes.  exts: list of (type, data).  For level 1 `packed` is the member data size; the
     extended header bytes are added to the stored field.  common_crc adds a type-0 header first and fills it."""
+    if fake_packed is not None:
+        packed = fake_packed      # header-only members (listing tests): the field is stored, no data follows
     exts = list(exts)
     if common_crc:
         exts = [(0, b"\0\0")] + exts
